@@ -154,6 +154,32 @@ fn ctor_case(c: &Ctor, obs: &mut Obs) -> CaseResult {
         return Err(format!("{}: returned {:?}, expected {:?}", what, got, want));
     }
     ensure!(log.iter().all(|t| t.op == Op::MovFromCr && t.a == 3), "{}: executed {:x?}", what, log);
+    // "the frame *currently* loaded as address-space root": construct twice inside one function with
+    // a root switch in between; the second outcome must follow the new CR3 (a wrapper whose CR3 read
+    // may be merged or cached by the optimiser would judge the second table against the old root)
+    if recursive_form {
+        let e = m.read(table_frame, ix[0] as usize);
+        let spare = (f ^ 0x0000_0040_0000_7000) & ADDR_MASK;
+        let cr3_b = if cand_ok || e & 1 == 0 { spare } else { e & ADDR_MASK };
+        let want_b = if e & 1 != 0 && e & ADDR_MASK == cr3_b { Ok(()) } else { Err("NotActive".to_string()) };
+        let cr3_a = cp.cr[3];
+        let res2 = outcome(|| new_twice(addr, cr3_b | (c.cr3_low as u64 & 0xfff)));
+        cpu().set_cr(3, cr3_a);
+        cpu().clear_log();
+        match res2 {
+            Outcome::Ret((a, b, root_a, root_b)) => {
+                if a != want || b != want_b || root_a != cr3_a & ADDR_MASK || root_b != cr3_b {
+                    unsafe { unmap_at(addr) };
+                    return Err(format!("{}: two constructions around a root switch to CR3 {:#x} returned {:?} then {:?} (Cr3::read saw roots {:#x} then {:#x}), expected {:?} then {:?}", what, cr3_b, a, b, root_a, root_b, want, want_b));
+                }
+            }
+            Outcome::Panic(msg) => {
+                unsafe { unmap_at(addr) };
+                return Err(format!("{} (twice, around a root switch) panicked: {}", what, msg));
+            }
+        }
+        obs.label("root-switch-between-two-constructions");
+    }
     // the recursive index it then uses: observe the fault addresses of a following translate
     if want.is_ok() {
         let probe = {
@@ -194,6 +220,17 @@ fn ctor_case(c: &Ctor, obs: &mut Obs) -> CaseResult {
     Ok(())
 }
 
+#[inline(never)]
+fn new_twice(addr: u64, cr3_b: u64) -> (Result<(), String>, Result<(), String>, u64, u64) {
+    // like a kernel that looks at the current root, switches it and builds a mapper for the new one
+    let root_a = x86_64::registers::control::Cr3::read().0.start_address().as_u64();
+    let a = RecursivePageTable::new(unsafe { &mut *(addr as *mut PageTable) }).map(|_| ()).map_err(|e| format!("{:?}", e));
+    cpu().set_cr(3, cr3_b);
+    let b = RecursivePageTable::new(unsafe { &mut *(addr as *mut PageTable) }).map(|_| ()).map_err(|e| format!("{:?}", e));
+    let root_b = x86_64::registers::control::Cr3::read().0.start_address().as_u64();
+    (a, b, root_a, root_b)
+}
+
 unsafe fn map_frame_at(addr: u64, frame: u64) -> bool {
     let m = mem();
     let slot = m.slots[&frame];
@@ -230,7 +267,7 @@ pub fn run(run: &mut Run) {
     let n = run.cases(100_000, 4_000_000);
     run.sub(
         "constructor",
-        "RecursivePageTable::new on table addresses of the recursive form and near-recursive forms (1-4 of the four indices replaced) x CR3 = any frame + any low 12 bits x slot content in {points to the CR3 frame, same with arbitrary other flags, not present, other frame, other frame while another slot points to the CR3 frame, slot fine but CR3 holds another frame}; oracle: Ok iff the four indices are equal and that slot is present and holds the CR3 frame, NotRecursive / NotActive otherwise, only CR3 is read; after Ok a translate() reaches the level-3 table through the page r|r|r|p4 (observed fault address of the software MMU); non-trivial = near-recursive address or a slot content other than the plain correct one",
+        "RecursivePageTable::new on table addresses of the recursive form and near-recursive forms (1-4 of the four indices replaced) x CR3 = any frame + any low 12 bits x slot content in {points to the CR3 frame, same with arbitrary other flags, not present, other frame, other frame while another slot points to the CR3 frame, slot fine but CR3 holds another frame}; oracle: Ok iff the four indices are equal and that slot is present and holds the CR3 frame, NotRecursive / NotActive otherwise, only CR3 is read; a second construction after a root switch (CR3 changed inside the same function) follows the new root; after Ok a translate() reaches the level-3 table through the page r|r|r|p4 (observed fault address of the software MMU); non-trivial = near-recursive address or a slot content other than the plain correct one",
         n,
         ctor(),
         ctor_case,
